@@ -384,7 +384,7 @@ def run(run):
                 'a probe read on a fresh connection (same line for serial) is answered from the actual store; distinct = (front, framing, bytes, cuts); all non-trivial')
     run.assumptions = ['reference receivers (any-offset candidates) define the justified writes', 'Twisted: an exception out of dataReceived means the reactor closes that connection',
                        'serial-style handler: recovery within the C11 bound on the same line']
-    n = run.scale(260, 2500)
+    n = run.scale(260, 30000)
     for front, framing in FRONTS:
         for i in range(n):
             layout = gen_layout(r)
@@ -398,6 +398,9 @@ def run(run):
                      sample={'front': front, 'framing': framing, 'class': cls, 'reads': [x.hex()[:80] for x in reads[:4]], 'total_bytes': len(data),
                              'verdict': 'survived, store justified, probe answered' if ok else 'differs'},
                      sample_class=(front, cls))
+    if run.thorough and run.shard in (None, 0):
+        from . import loopback
+        loopback.hostile(run, r, uniq, 120, gen_layout, hostile_stream, split, [c for c in CLASSES if c != 'blob'], unjustified_changes, probe_reads)
     run.floor('hostile inputs per front-end (min)', min(run.counters.get('hostile_inputs:%s' % f, 0) for f in FE.ALL), 50 if run.shard is None else 3)
     run.floor('probes answered', run.counters.get('probes_answered', 0), 700 if run.shard is None else 40)
     run.floor('stores changed by (justified) writes inside hostile input', run.counters.get('stores_changed_by_hostile_input', 0), 100 if run.shard is None else 5)
